@@ -196,9 +196,21 @@ impl<'input> Parser<'input> {
     /// Parse a GraphQL type.
     /// This is the expected format of the string value of the `type` argument
     /// of some directives like [`@field`](https://specs.apollo.dev/join/v0.3/#@field).
+    ///
+    /// If the input does not start with a type, a syntax error is reported
+    /// and the root node of the tree is a `NamedType` without a name.
     pub fn parse_type(mut self) -> SyntaxTree<Type> {
+        // Ignored tokens before the type are added to the tree inside the root node.
+        self.skip_ignored();
         grammar::ty::ty(&mut self);
         self.expect_end_of_input();
+
+        if !self.builder.borrow().has_root() {
+            // No type was found, and the error is reported. The tree still needs a root node
+            // of a type kind: an empty named type, with the tokens that were seen so far.
+            let _guard = self.start_node(SyntaxKind::NAMED_TYPE);
+            self.push_ignored();
+        }
 
         let builder = Rc::try_unwrap(self.builder)
             .expect("More than one reference to builder left")
